@@ -43,6 +43,11 @@ EXPLANATION = (
     'members of a collection only under that predicate on the member itself (loop guard, comprehension filter or pre-filtered collection); another condition on the member is not compared. '
     'R14 a raw path taken from the link command line is added to the implicit dependencies guess_external_link_dependencies returns only under a dominating existence test of that path '
     '(paths resolved by a helper are not examined). '
+    'R15 producer-side and consumer-side name of a target class agree: where the statement of a target class K is written under self.F(target) and F forms the name from fields of the '
+    'target alone, one of which the generic dependency name join(self.<dir>(x), x.<outputs>()) can never read (attribute loads of the bodies it goes through), no collection whose declared '
+    'member classes (annotations of the parameter / field / getter, minus isinstance filters of a comprehension) admit a K is handed to a generic dependency namer that has no isinstance arm for K '
+    '(run_target: build_run_target_name reads target.subproject, get_paths_for_dep_outputs does not). Does NOT decide that the filtered-out members are then named through F (a dropped '
+    'dependency is not an unproduced input), nor agreement of two names that read the same fields (value-level). '
     'The aggregate inputs of R4 are read in the table loop itself, in a comprehension, or in a generator / list-building helper that receives the targets of the row; a conditional-expression operand '
     'of yield / return / assignment is read as the if/else statement of both instances in every decision table of the pack. '
     'Not decided (declared limits): which of two in-scope objects a filter records (BuildTarget.extract_objects appending the parent target instead of the requested source is a '
